@@ -1,4 +1,5 @@
 import PugModel.Tpl.Compile
+import PugModel.Gen.Tables
 import PugProofs.C01.EvalScalar
 import PugProofs.C01.EndToEnd
 import PugProofs.C06.Mixed
@@ -213,5 +214,26 @@ example : MSerL svs1 { funcs := engineFuncs ++ [], parserFuncs := engineFuncs ++
   · have : ¬ "p" ∈ Tpl.voidTags := by decide
     simp [this]
 end EndToEndNonVacuity
+
+/-! ## the code the model mirrors, by its control skeleton
+
+`Gen.escapeSkeleton`: `HTMLEscape` (pugjs/tpl_funcs.go): one loop over the bytes, one switch with five cases, nothing that skips a byte - every `if` / `switch` / `case` condition, loop header, `return`, `continue`, in source order with nesting depth,
+regenerated from the Go source on every run. It must be the skeleton the escaper model generated from the same switch (`Gen.htmlEscape`) was written against: a changed condition, an added
+branch or early exit reopens the obligation before any input is drawn. -/
+
+def expected_escapeSkeleton : List (String × String) :=
+  [("HTMLEscape", "0 range b"),
+   ("HTMLEscape", "1 switch c"),
+   ("HTMLEscape", "2 case '\"'"),
+   ("HTMLEscape", "2 case '\\''"),
+   ("HTMLEscape", "2 case '&'"),
+   ("HTMLEscape", "2 case '<'"),
+   ("HTMLEscape", "2 case '>'"),
+   ("HTMLEscape", "2 case "),
+   ("HTMLEscape", "3 continue ")]
+
+/-- **C04 (the model's tie to the code, by shape).** -/
+theorem C04_escape_skeleton : Gen.escapeSkeleton_ok = true ∧ Gen.escapeSkeleton = expected_escapeSkeleton := by
+  constructor <;> decide
 
 end Pug.Props.C04
